@@ -5,7 +5,7 @@
 From Coq Require Import List NArith Bool.
 From Coq Require String.
 From Verif Require Import Base.SetList Base.Terms Base.Vocab Paths.Path Shapes.AST Shapes.Leaf Shapes.Eval
-  Shapes.EvalProofs Shapes.SparqlProofs Sparql.Message Sparql.MessageProofs.
+  Shapes.EvalProofs Shapes.SparqlProofs Sparql.Message Sparql.MessageProofs Sparql.LocalName.
 Import ListNotations.
 
 (* The rows kept by an sh:sparql constraint are exactly the distinct solutions of its query:
@@ -95,3 +95,45 @@ Print Assumptions C05_message_own_bindings.
    gives "v=C:\dir {$this} on ex:a, {?other} {?} {" (definitions in Sparql/MessageProofs.v) *)
 Example C05_message_nonvacuous : subst ex_bindings ex_template = ex_result.
 Proof. vm_compute. reflexivity. Qed.
+
+(* ---- The variable a component's parameter is pre-bound under (Sparql/LocalName.v, model of
+   SHACLParameter.localname): for a parameter ns#local or ns/local the name is local, so the query's
+   $local is the variable that receives the parameter's value; no other name, whatever the namespace
+   looks like before the separator. [LocalName.find c s = None]: the character does not occur. ---- *)
+Theorem C05_parameter_name_hash_namespace : forall ns local : String.string,
+  ns <> String.EmptyString -> LocalName.find LocalName.hash ns = None ->
+  LocalName.localname (String.append ns (String.String LocalName.hash local)) = Some local.
+Proof. exact LocalName.localname_hash. Qed.
+Print Assumptions C05_parameter_name_hash_namespace.
+
+Theorem C05_parameter_name_slash_namespace : forall ns local : String.string,
+  ns <> String.EmptyString -> LocalName.find LocalName.hash ns = None ->
+  LocalName.find LocalName.hash local = None -> LocalName.find LocalName.slash local = None ->
+  LocalName.localname (String.append ns (String.String LocalName.slash local)) = Some local.
+Proof. exact LocalName.localname_slash. Qed.
+Print Assumptions C05_parameter_name_slash_namespace.
+
+Theorem C05_parameter_names_distinct : forall ns l1 l2 : String.string,
+  ns <> String.EmptyString -> LocalName.find LocalName.hash ns = None ->
+  LocalName.find LocalName.hash l1 = None -> LocalName.find LocalName.slash l1 = None ->
+  LocalName.find LocalName.hash l2 = None -> LocalName.find LocalName.slash l2 = None ->
+  LocalName.localname (String.append ns (String.String LocalName.slash l1)) =
+  LocalName.localname (String.append ns (String.String LocalName.slash l2)) -> l1 = l2.
+Proof. exact LocalName.localname_injective_slash. Qed.
+Print Assumptions C05_parameter_names_distinct.
+
+(* the documented error, and only then: no '#' and no '/' beyond the first character *)
+Theorem C05_parameter_name_error : forall p : String.string,
+  LocalName.localname p = None <->
+  (LocalName.find LocalName.hash p = None \/ LocalName.find LocalName.hash p = Some 0) /\
+  (LocalName.rfind LocalName.slash p = None \/ LocalName.rfind LocalName.slash p = Some 0).
+Proof. exact LocalName.localname_error. Qed.
+Print Assumptions C05_parameter_name_error.
+
+Import String.
+Example C05_parameter_name_examples :
+  LocalName.localname "http://example.org/params/maxLen"%string = Some "maxLen"%string /\
+  LocalName.localname "http://example.org/ns#maxLen"%string = Some "maxLen"%string /\
+  LocalName.localname "http://a/b#c/d#e"%string = Some "c/d#e"%string /\
+  LocalName.localname "urn:x"%string = None.
+Proof. vm_compute. repeat split. Qed.
